@@ -106,20 +106,21 @@ class C30(Check):
                   "schedules in ucontext coroutines; history, drained contents, head counter, held items and per-thread step "
                   "counts are compared with the extracted model. Full level (sequentially consistent memory).")
     level_note = ("Trusted: Coq kernel, extraction, cosched/interpose.h plus one extra yield at parsec_atomic_rmb defined in "
-                  "h_lifo.c. Granularity: plain accesses belong to the segment that contains them, so 'read head.item and "
-                  "item->list_next' is one step and 'CAS128 then item->list_next = NULL' is one step (the model is coarser than the "
-                  "hardware there); SC memory; the int64 counter does not overflow (it counts successful pops: C30_counter_bound). "
+                  "h_lifo.c, which also makes every CAS a step of its own (yield before and after). Granularity: plain accesses "
+                  "belong to the segment that contains them, so 'read head.item, test NULL, read item->list_next' is one step and "
+                  "'read head.item, write tail->list_next' is one step (the model is coarser than the hardware there); SC memory; "
+                  "the int64 counter does not overflow (it counts successful pops: C30_counter_bound). "
                   "Clients are well behaved by construction (a thread pushes only items it holds). The LLSC and spin-lock branches "
                   "of lifo.h are not compiled in this build and not modelled; nolock variants are modelled on a quiescent LIFO only "
                   "(initial fill, final drain).")
     technique = ("Coq forward-simulation proof (linearisation points, ghost-free: the LP log is replayed on a list) over all schedules "
                  "+ controlled-schedule differential run (ucontext coroutines, macro-interposed atomics) of the real LIFO + "
                  "Wing-Gong linearizability search on the implementation's observed histories")
-    rule = ("1..5 threads, <= 8 operations each, pool of 2..7 items (re-pushed after pops); schedules: sequential, round-robin, "
-            "bursts, random, and directed ABA windows (a pop is suspended between its reads and its CAS while others pop and "
+    rule = ("1..5 threads, <= 8 operations each, pool of 2..7 items (re-pushed after pops; thorough tier adds 6..16 threads); "
+            "schedules: sequential, round-robin, bursts, one stalled thread, random, and directed ABA windows (a pop is suspended between its reads and its CAS while others pop and "
             "re-push the same item); non-trivial = at least 2 threads and an interleaving schedule; distinct = case text")
-    trusted = ("cosched.h/interpose.h scheduling points and the parsec_atomic_rmb yield of harness/h_lifo.c; per-thread item bags "
-               "kept by the harness", "python Wing-Gong search of checks/C30.py (oracle only)")
+    trusted = ("cosched.h/interpose.h scheduling points, refined in harness/h_lifo.c (yield before and after each CAS, yield at "
+               "parsec_atomic_rmb); per-thread item bags and ring construction done by the harness", "python Wing-Gong search of checks/C30.py (oracle only)")
     assumptions = ("sequentially consistent memory (parsec_atomic_* are full-barrier builtins; wmb/rmb are mfence)",
                    "fewer than 2^63 successful pops (int64 ABA counter does not wrap)",
                    "an item is pushed only by the thread that holds it and is in at most one LIFO")
@@ -152,7 +153,7 @@ class C30(Check):
 
     def rand_sched(self, r, nt, nops):
         kind = r.below(6)
-        tot = 3 * nops
+        tot = 4 * nops
         if kind == 0:        # sequential
             return [t for t in range(nt) for _ in range(30)]
         if kind == 1:        # round robin (the completion phase does it)
@@ -193,11 +194,11 @@ class C30(Check):
             a_ops = [POP] * npop + [200 + npop]
         a_ops += self.rand_ops(r, r.range(0, 2), "")
         ths = [([], v_ops), (spare[:1], a_ops)]
-        a_steps = 3 * npop + 2 * (len(a_ops) - npop)
-        sched = [0, 0] + [1] * a_steps + [0] * 6
+        a_steps = 4 * npop + 3 * (len(a_ops) - npop)
+        sched = [0, 0] + [1] * a_steps + [0] * 8
         if r.chance(1, 3):      # a third thread takes part
             ths.append((spare[1:2], self.rand_ops(r, r.range(1, 4), "pop")))
-            sched = [0, 0] + [r.pick([1, 1, 2]) for _ in range(a_steps + 8)] + [0] * 6
+            sched = [0, 0] + [r.pick([1, 1, 2]) for _ in range(a_steps + 8)] + [0] * 8
         return self.fmt(r.below(2), ni, s0, ths, sched)
 
     def cases(self):
@@ -205,9 +206,9 @@ class C30(Check):
         out = []
         # directed: the textbook ABA schedule, first
         out.append(self.fmt(1, 3, [0, 1, 2], [([], [POP]), ([], [POP, POP, 101])],
-                            [0, 0] + [1] * 8 + [0, 0, 0, 0]))
+                            [0, 0] + [1] * 11 + [0] * 6))
         out.append(self.fmt(0, 3, [0, 1, 2], [([], [TRY, POP]), ([], [POP, POP, 101, POP])],
-                            [0, 0] + [1] * 8 + [0, 0, 0, 0]))
+                            [0, 0] + [1] * 11 + [0] * 6))
         N = 2500 if self.tier == "quick" else 60000
         for i in range(N):
             if r.chance(1, 4):
@@ -215,6 +216,10 @@ class C30(Check):
                 continue
             nt = r.pick([1, 2, 2, 3, 3, 4, 5])
             ni = r.range(2, 7)
+            big = self.tier != "quick" and r.chance(1, 10)      # stress: up to 16 threads, larger pool
+            if big:
+                nt = r.range(6, 16)
+                ni = r.range(4, 16)
             items = r.shuffle(range(ni))
             ns0 = r.range(0, ni)
             s0, rest = items[:ns0], items[ns0:]
@@ -222,7 +227,7 @@ class C30(Check):
             for x in rest:
                 owns[r.below(nt)].append(x)
             bias = r.pick(["", "pop"])
-            ths = [(owns[t], self.rand_ops(r, r.range(1, 8), bias)) for t in range(nt)]
+            ths = [(owns[t], self.rand_ops(r, r.range(1, 4 if big else 8), bias)) for t in range(nt)]
             nops = sum(len(o) for _, o in ths)
             out.append(self.fmt(r.below(2), ni, s0, ths, self.rand_sched(r, nt, nops)))
         return out
@@ -243,7 +248,8 @@ class C30(Check):
         return case if inter else None
 
     def dist(self, cases):
-        d = {"threads_hist": {}, "ops_total": 0, "with_initial_contents": 0, "chain_ops": 0, "try_pop_ops": 0}
+        d = {"threads_hist": {}, "ops_total": 0, "with_initial_contents": 0, "chain_ops": 0, "try_pop_ops": 0,
+             "lin_search_out_of_budget": getattr(self, "inconclusive", 0)}
         for c in cases:
             try:
                 ch, nt, ni, s0, ths, sched = parse_case(c)
@@ -329,6 +335,8 @@ class C30(Check):
             return "unparsable observation (held items differ from the answers)"
         # ---- linearizability of the observed history, ending in the observed contents
         r = Lin(ops, s0, stack).run()
+        if r is None:
+            self.inconclusive = getattr(self, "inconclusive", 0) + 1
         if r is False:
             return "nonlin: no sequential stack history explains the answers and the final contents %s" % stack
         return None
